@@ -1,4 +1,5 @@
 CONSTANTS
+  OldResetHandling = FALSE
   Alphabet = {16, 42, 198, 170, 200, 192, 129, 212}
   MaxLen = 5
   Distinct = TRUE
